@@ -1,3 +1,4 @@
+import Std.Data.HashMap
 import H3.Drv.Util
 import H3.Model.Headers
 import H3.Spec.Headers
@@ -159,10 +160,17 @@ def namesOf : List FieldLine → List Bytes → List Bytes
   | (n, _) :: r, acc => if acc.contains n then namesOf r acc else namesOf r (n :: acc)
 
 /-- the regular fields, grouped by name in order of first appearance (the iteration order
-    `http::HeaderMap` documents), arrival order inside a group. -/
+    `http::HeaderMap` documents), arrival order inside a group:
+    `(namesOf rs []).flatMap fun n => rs.filter (·.1 = n)`, computed by numbering the names in
+    order of first appearance and sorting stably by that number (sections may have tens of
+    thousands of fields). -/
 def groupedRegular (fs : List FieldLine) : List FieldLine :=
   let rs := regular fs
-  (namesOf rs []).flatMap fun n => rs.filter (fun f => f.1 = n)
+  let numbered := rs.foldl (fun (acc : Std.HashMap Bytes Nat × List (Nat × FieldLine)) f =>
+      match acc.1[f.1]? with
+      | some i => (acc.1, (i, f) :: acc.2)
+      | none => (acc.1.insert f.1 acc.1.size, (acc.1.size, f) :: acc.2)) ({}, [])
+  (numbered.2.reverse.mergeSort (fun a b => a.1 ≤ b.1)).map (·.2)
 
 /-- the common value when all values agree, `*` otherwise -/
 def agreed (vs : List Bytes) (none_ : String) : String :=
